@@ -1187,3 +1187,13 @@ Proof.
   unfold CInv in I1, I2. cbn [fst snd] in I1, I2. rewrite E in I1.
   apply (Inv_unique base _ _ _ _ I1 I2).
 Qed.
+
+(* the requested form verbatim holds when nothing exists beforehand *)
+Corollary dirs_serializable_empty_base : forall ts sched c,
+  NoDup (map t_path ts) ->
+  run_sched [] sched (init_config ts) = Some c -> all_done c = true ->
+  exists c', run_sched [] (seq_sched (List.length ts)) (init_config ts) = Some c' /\
+             all_done c' = true /\ dstate_equiv (fst c) (fst c') = true.
+Proof.
+  intros ts sched c. apply dirs_serializable. intros x d H. discriminate.
+Qed.
